@@ -1,6 +1,6 @@
 SPECIFICATION MCSpec
 CONSTANTS
-  SetupIds = {1,2,3}
+  SetupIds = {1,2,3,4,5}
   RegIds = {1}
   FileIds = {1}
   CliIds = {1}
